@@ -28,6 +28,10 @@ pub struct BBIReadError { _p: u8 }
 #[verifier::external_body]
 pub struct CirTreeIndex { _p: u8 }
 
+/// `Result::unwrap_or` (std): only so that an edit that swallows an error this way is judged, not rejected
+pub assume_specification<T, E> [Result::<T, E>::unwrap_or] (s: Result<T, E>, d: T) -> (r: T)
+    ensures r == (match s { Ok(t) => t, Err(_) => d });
+
 /// the file's chromosome table (fixed for an open reader): name -> id, and whether the name is present
 pub uninterp spec fn file_chrom_id(name: Seq<char>) -> u32;
 pub uninterp spec fn chrom_known(name: Seq<char>) -> bool;
@@ -380,7 +384,7 @@ impl BigWigRead {
         [[L: errors_propagate]]
         r.is_err() <==> (!chrom_known(chrom_name@) || final(self).fails() > old(self).fails()),
 //@at /let mut bi: usize = 0;/ before
-        proof { lemma_init(values@, start, end); }
+        proof { lemma_init(values@, start, end); } [[L: array_starts_all_nan]]
 //@loop 1
             invariant
                 [[L: blocks/frame]]
@@ -435,7 +439,7 @@ impl BigWigRead {
 //@at /^\s*Ok\(values\)\s*$/ before
         proof {
             lemma_boundary(values@, self.answers(), start, end);
-            assert(self.asked() =~= asks_for(self.found(), self.found().len() as int, file_chrom_id(chrom_name@), start, end));
+            assert(self.asked() =~= asks_for(self.found(), self.found().len() as int, file_chrom_id(chrom_name@), start, end)); [[L: no_block_skipped]]
         }
 //@end
 }
